@@ -57,6 +57,16 @@ func cfgA(id, rule string, panicV bool) propCfg {
 		PanicIsViolation: panicV, Real: realA, Stubbed: stubA, Assume: assumeA}
 }
 
+func cfgC(id, rule string) propCfg {
+	c := cfgA(id, rule, false)
+	c.QuickS = 25
+	c.Workers = 8
+	c.Real = []string{"prunner.PipelineRunner", "taskctl.Scheduler", "taskctl.TaskRunner, PgidExecutor, mvdan/sh interpreter (real)", "real child processes (/bin/sh, coreutils)", "taskctl.FileOutputStore", "server handlers (/job/logs)"}
+	c.Stubbed = []string{"nothing; the simulator only decides the interleaving of job and stage goroutines at the hook points"}
+	c.Assume = []string{"scenario-replayable only: the kernel schedules the child processes, the fake clock stands still while they run", "output that is not valid UTF-8 is not generated (the JSON log API cannot carry it)", "sampling, not proof"}
+	return c
+}
+
 func cfgStore(c propCfg) propCfg {
 	c.Real = append(append([]string{}, c.Real...), "store.JsonDataStore on a per-run directory in /dev/shm (or the recording in-memory store)", "taskctl.FileOutputStore (C12)", "persist loop of NewPipelineRunner")
 	return c
@@ -90,6 +100,12 @@ var props = map[string]propCfg{
 		c.Real = append(append([]string{}, c.Real...), "server package: chi router, jwtauth verifier/authenticator, handlers (via http.Handler, no sockets)", "lestrrat-go/jwx token validation on the fake clock")
 		return c
 	}(),
+	"C17": {ID: "C17", Pkg: "./sim", Profile: "C17", Level: "exploration", QuickS: 15, ThoroughS: 600,
+		Rule: "(a) simulated: the real reload loop of the binary (watch mode, 30s ticker on the fake clock) next to an editor that rewrites 1-3 real YAML files in nested directories: single-field edits chosen by reflection over the exported fields of PipelineDef/TaskDef (so future fields are included), written atomically or torn in two steps with polls in between, and invalid edits (each validation rule once, duplicate names across files, broken YAML); after each completed edit and more than one poll interval the installed definitions must be what the files say, they must be valid at every step, and invalid files must leave the last valid definitions installed. (b) NOT simulation (direct input generation, counted separately as direct_equals_single_field_difference): Equals on reflection-generated single-field differences, load result of a valid file set. non-trivial = an edit was checked after a poll; distinct = distinct trace hash",
+		Real: []string{"app.handleDefinitionChanges (reload loop)", "definition.LoadRecursively / Load / validate / Equals", "PipelineRunner.ReplaceDefinitions", "real YAML files on /dev/shm"}, Stubbed: []string{"no jobs run in this engine (task runner unused)"},
+		Assume: []string{"file modification times come from the real kernel clock, not the fake one", "SIGUSR1-triggered reload is not exercised (signals cannot be delivered into a bubble)", "sampling, not proof"}},
+	"C18": cfgC("C18", "seeded assignments of 4 names to the three environment levels (process env set by the harness, pipeline env, task env) in every overlap pattern, values with spaces, quotes, newlines, $, =, glob characters and non-ASCII; per-job variable maps (strings, numbers, lists) rendered through {{.var}}; 1-2 pipelines x 1-2 tasks, 1-4 jobs overlapping with the interleaving of job and stage goroutines chosen by the tape; every task reports, through interpreter built-ins and through an executed /bin/sh, what it sees (hex encoded); the reserved variable name __jobID in some requests; non-trivial = a finished task's report was compared; distinct = distinct trace hash"),
+	"C19": cfgC("C19", "seeded tasks of 1-4 commands writing known payloads (empty, partial lines, 4 KiB boundaries, 64 KiB, 1 MiB, 4 MiB, multi-byte text around 32 KiB, interleaved stdout/stderr), unusual task names, 1-3 concurrent jobs x 1-4 tasks writing at once through the real FileOutputStore; afterwards the log store and GET /job/logs must return exactly what each task's commands wrote, a task the job does not have must be refused, and no log directory may belong to no job; non-trivial = a finished task's output was compared; distinct = distinct trace hash"),
 	"C15": cfgA("C15", "seeded histories with settle-and-probe actions (list, then schedule at once), HTTP and direct reads; non-trivial = a schedulable probe or HTTP listing was evaluated; distinct = distinct trace hash", false),
 	"C16": cfgA("C16", "seeded old/new definition pairs produced by mutation (tasks added/removed/rewired, scripts, env, delay, limits, strategy, pipelines dropped/added), reloads at seeded points of job lives; non-trivial = a reload happened while a job was waiting or running; distinct = distinct trace hash", true),
 }
